@@ -100,14 +100,14 @@ def build(scratch, log_path):
 
 
 CHECK_RE = re.compile(
-    r"^Check (\d+): (\S+)\n\s+- Status: (\S+)\n\s+- Description: \"(.*)\"\n\s+- Location: (.*)$", re.M)
+    r"^Check (\d+): (\S+)\n\s+- Status: (\S+)\n\s+- Description: \"(.*?)\"\n\s+- Location: ([^\n]*)$", re.M | re.S)
 
 
 def parse_output(out):
     checks = []
     for m in CHECK_RE.finditer(out):
         checks.append({"n": int(m.group(1)), "name": m.group(2), "status": m.group(3),
-                       "desc": m.group(4).strip('"'), "loc": m.group(5)})
+                       "desc": " ".join(m.group(4).strip('"').split()), "loc": m.group(5)})
     verdict = None
     m = re.search(r"VERIFICATION:- (\w+)", out)
     if m:
